@@ -66,6 +66,51 @@ def library_budget(model) -> int:
     return _BUDGET["v"]
 
 
+def redex_shapes(t, parent=None):
+    """Shapes that the library's structural rules remove (flattening, constant consolidation, double
+    negation / reciprocal, elimination of Minus and Divide) -- looked for directly in a form, without
+    asking the library's reducers whether they apply."""
+    k = t[0]
+    if k == "ConstantSym":
+        return
+    kids = spec.children(t)
+    if k in spec.NARY:
+        if parent == k:
+            yield f"{k} directly inside {k}"
+        if sum(1 for c in kids if c[0] in ("Constant", "ConstantSym")) > 1:
+            yield f"several constants in one {k}"
+    if k in ("Minus", "Divide"):
+        yield f"{k} node"
+    if k in ("Negation", "Reciprocal") and parent == k:
+        yield f"{k} of {k}"
+    for c in kids:
+        yield from redex_shapes(c, k)
+
+
+def armed_shapes(model) -> dict:
+    """shape -> minimal redex on which the CURRENT library was seen to remove it (a shape whose minimal
+    instance the library leaves alone is not a redex of this rule set and is not required to vanish)."""
+    a, b, c = (("Variable", n) for n in ("a", "b", "c"))
+    probes = {}
+    for k in spec.NARY:
+        if k in model.classes:
+            probes[f"{k} directly inside {k}"] = (k, [(k, [a, b]), c])
+            probes[f"several constants in one {k}"] = (k, [("Constant", 2), ("Constant", 3), a])
+    for k in ("Negation", "Reciprocal"):
+        if k in model.classes:
+            probes[f"{k} of {k}"] = (k, (k, a))
+    for k in ("Minus", "Divide"):
+        if k in model.classes:
+            probes[f"{k} node"] = (k, a, b)
+    armed = {}
+    for shape, tree in probes.items():
+        tr = reduce_trace((tree, 200))
+        if tr["kind"] == "ok" and len(tr["seq"]) >= 2 and tr["seq"][-2][1] is not None \
+                and shape not in set(redex_shapes(tr["seq"][-2][1])):
+            armed[shape] = spec.show(tree)
+    return armed
+
+
 def term_case(args):
     tree, label = args
     model = load_model()
@@ -107,6 +152,8 @@ def term_case(args):
     # rule-free: a fresh copy of the fully reduced form (flags cleared) must not reduce further
     if not out.get("unfinished") and "revisit" not in out:
         reduced = seq[-2][1]
+        out["shapes"] = sorted(set(redex_shapes(reduced)))
+        out["reduced"] = seq[-2][2]
         ar = applicable_rules((reduced,))
         if ar["kind"] == "ok" and ar["found"]:
             out["not_rule_free"] = {"form": seq[-2][2], "then": [(w, f"{at} -> {to}") for (w, at, to) in ar["found"][:3]]}
@@ -196,6 +243,54 @@ def reuse_case(args):
     return out
 
 
+def idempotence_case(args):
+    """Worker: simplify, rebuild the result from scratch (fresh objects, no flags), simplify again: a form
+    to which no rule applies does not change -- a criterion that does not rely on asking the library's own
+    reducers whether they apply."""
+    (tree,) = args
+    model = load_model()
+
+    def thunk(it):
+        e = build(it, tree, {})
+        first = obj_to_tree(it, it.call(it.getattr(e, "_normalize"), [], {}))
+        again = obj_to_tree(it, it.call(it.getattr(build(it, _strip_sym(first), None), "_normalize"), [], {}))
+        return first, again
+    outs = run_paths(model, thunk, max_paths=2, max_steps=8000000, generic_only=True)
+    o = outs[0]
+    if o["kind"] == "raise":
+        from ..harness import exc_name
+        return {"kind": "raise", "exc": exc_name(o["exc"])}
+    if o["kind"] != "return":
+        return {"kind": "unsupported", "msg": o["msg"]}
+    first, again = o["value"]
+    return {"kind": "ok", "first": spec.show(first), "again": spec.show(again),
+            "same": same_form(_strip_sym(first), _strip_sym(again))}
+
+
+def check_idempotence(rep, inputs):
+    cases = [(t, l) for (t, l) in inputs if not l.startswith("random(")]
+    results = pmap(idempotence_case, [(t,) for (t, _l) in cases], chunksize=8)
+    per = {}
+    for (tree, label), r in zip(cases, results):
+        d = per.setdefault(label, [0, 0])
+        d[0] += 1
+        if r["kind"] == "unsupported":
+            rep.count("idempotence_cases_not_judged")
+        elif r["kind"] == "raise":
+            rep.count("idempotence_cases_raising")
+            d[1] += 1
+        elif not r["same"]:
+            rep.violation("C11.idempotent", label, "",
+                          f"{spec.show(tree)} simplifies to {r['first']}, but simplifying a freshly built copy of that "
+                          f"result gives {r['again']}: the first run stopped at a form to which rules still apply",
+                          witness=r, witness_class=f"not idempotent {label}")
+        else:
+            d[1] += 1
+    for label, (n, good) in sorted(per.items()):
+        if n == good:
+            rep.ok("C11.idempotent", label, "", f"{n} inputs: simplifying the (rebuilt) result again changes nothing", cases=n)
+
+
 def check_reuse(rep, model):
     cases = [(i, how, w) for i in reuse_inners() for how in ("normal form", "symbolic derivative") for w in WRAPPERS]
     results = pmap(reuse_case, cases, chunksize=4)
@@ -234,8 +329,14 @@ def check(rep):
     tier = rep.tier
     check_reuse(rep, model)
     inputs = rule_inputs(model, tier) + variable_free_inputs(model) + families() + unary_chains(model, tier)
+    check_idempotence(rep, inputs)
     inputs += random_trees(rep.seed, 60 if tier == "quick" else 600, 30 if tier == "quick" else 80)
     results = pmap(term_case, inputs, chunksize=8)
+    armed = armed_shapes(model)
+    rep.extra["redex_shapes_armed"] = armed
+    if len(armed) < 6:
+        rep.unknown("C11.rule-free", "redex shapes", "", f"only {len(armed)} of the structural redex shapes are removed by "
+                    f"the library on their minimal instance (8 on the reference tree)")
     per = {}
     max_ratio = 0.0
     worst = None
@@ -291,6 +392,14 @@ def check(rep):
                           f"{out['tree']} is declared fully reduced as {n['form']}, but a fresh copy of that form is "
                           f"rewritten further by {n['then'][0][0]} to {n['then'][0][1]}", witness=out,
                           witness_class=f"not-rule-free {n['then'][0][0]}")
+            bad = True
+        left = [s for s in out.get("shapes", []) if s in armed]
+        if left and "not_rule_free" not in out:
+            rep.violation("C11.rule-free", label, "",
+                          f"{out['tree']} is declared fully reduced as {out['reduced']}, which still contains "
+                          f"'{left[0]}' although the library rewrites the minimal instance {armed[left[0]]}: a rule applies "
+                          f"(the reducer that should fire declines here)", witness=out,
+                          witness_class=f"redex shape left: {left[0]}")
             bad = True
         if "rule_free_unknown" in out:
             rep.unknown("C11.rule-free", label, "", out["rule_free_unknown"])
